@@ -87,6 +87,10 @@ def impl(op, a):
     return _val(guarded(f))
 
 
+_impl_plain = impl
+impl = lib.with_bytearray_variant(_impl_plain, ['conf_from_bytes', 'sc_from_bytes', 'iid_from_bytes', 'liid_from_bytes', 'cstat_from_bytes', 'ictrl_from_bytes', 'rr_from_bytes', 'uictrl_from_bytes', 'fmt_from_bytes', 'obis_from_bytes'])
+
+
 def bits(n, k):
     return [bool((n >> i) & 1) for i in range(k)]
 
